@@ -165,10 +165,11 @@ for _k, _t in {
     "C09": "Capacities 7..70 are covered from constructed states (head at the first/second/middle/last slot, size 0/1/half/capacity-1/capacity) with every operation and every second operation.",
     "C14": "Lengths 4..70 are covered from every construction path with every operation and every second operation.",
     "C05": "1..40 (thorough 70) observers at a time with the first, middle or last one unsubscribed, muted, invalidated, muted and unmuted, or acting from inside its callback.",
-    "C10": "The two-observer action lists are repeated among 3..70 observers in total, the others only counting their calls (before, after and around the active pair).",
+    "C10": "The two-observer action lists are repeated among 3..70 observers in total, the others only counting their calls (before, after and around the active pair); one of the actions notifies a second Subject.",
     "C06": "1..40 (thorough 70) keys per level (an observer under each, half of them leaving) with concrete, wildcard and regex notifies.",
     "C13": "1..40 (thorough 70) keys per level: after half of the observers left and a full wildcard shrink ran, live keys exist, dead keys are gone, depth() agrees and the removed keys can be subscribed again.",
-    "C07": "Programs with 17..70 tasks queued at once (one schedule each; 20 tasks with one preemption).",
+    "C07": "Programs with 17..70 tasks queued at once (one schedule each; 20 tasks with one preemption), and programs with a second ThreadPool alive (its worker busy or idle).",
+    "C08": "Programs with a second ThreadPool alive during the whole script (its worker busy or idle): the pools share nothing.",
 }.items():
     META[_k]["text"] += " " + _t
 
